@@ -49,28 +49,48 @@ def run(ck, facts):
     def own_attrs_rule(fn_, adt_sfx, label):
         """the rename pattern applied to an item's symbol is the one of the item's OWN (merged) attributes -- the value stored in its `attrs` field --
         not the parent's it was cloned from: an abi_rename written on the item itself takes effect"""
-        holders = []
-        for n_ in C.walk(C.fn_body(fn_)):
-            if n_.get("k") == "struct" and (n_.get("adt") or "").endswith(adt_sfx):
-                for fl in n_["fields"]:
-                    if fl["n"] == "attrs":
-                        e_ = C.strip(fl["e"])
-                        holders.append(e_.get("id") if e_.get("k") == "local" else None)
-        used = []
-        for n_ in C.walk(C.fn_body(fn_)):
-            if n_.get("k") == "mcall" and n_.get("m") == "apply":
-                r_ = C.strip(n_["recv"])
-                if r_.get("k") == "field" and r_.get("n") == "abi_rename":
-                    b_ = C.strip(r_["e"])
-                    used.append((b_.get("id") if b_.get("k") == "local" else None, b_.get("n")))
-            if n_.get("k") in ("call", "mcall") and (C.callee(n_) or "").endswith("OpaqueType::dtor_abi_name"):
-                for a_ in n_.get("a", []):
-                    a0 = C.strip(a_)
-                    if a0.get("k") == "local" and "Attrs" in (a0.get("ty") or "Attrs") and a0.get("n", "").endswith("attrs"):
-                        used.append((a0.get("id"), a0.get("n")))
-        ok_ = bool(holders) and bool(used) and all(h is not None for h in holders) and all(u in holders for u, _ in used)
-        ck.expect(ok_, "R1", label + "/rename-of-own-attrs", "renamed with the attrs stored in the item", "%s renames the symbol with `%s.abi_rename`, which is not the attribute set stored in the item (%d holders): an "
-                  "#[diplomat::abi_rename] written on the item itself is ignored for its exported name" % (label, [n for _, n in used], len(holders)), C.loc(fn_))
+        fset = C.fns_inl(core, fn_, 2)
+
+        def merged(g, lid, depth=0):
+            """local `lid` of g holds the item's own merged attributes: add_attrs / add_attr was called on it, or it is a parameter every caller fills with such a value"""
+            for x in C.walk(C.fn_body(g)):
+                if x.get("k") == "mcall" and x.get("m") in ("add_attrs", "add_attr") and C.strip(x["recv"]).get("k") == "local" and C.strip(x["recv"]).get("id") == lid:
+                    return True
+            ps = [p_.get("id") if isinstance(p_, dict) else None for p_ in g["hir"].get("params", [])]
+            if lid in ps and depth < 3:
+                j_ = ps.index(lid)
+                sites = []
+                for h in fset:
+                    for c_ in C.walk(C.fn_body(h)):
+                        if c_.get("k") in ("call", "mcall") and C.norm_path(c_.get("p") or C.callee(c_) or "") == C.norm_path(g["path"]):
+                            args = ([c_["recv"]] + list(c_.get("a") or [])) if c_.get("k") == "mcall" else list(c_.get("a") or [])
+                            sites.append((h, args[j_] if j_ < len(args) else None))
+                ok_all = bool(sites)
+                for h, a_ in sites:
+                    a0 = C.strip(a_) if a_ is not None else {}
+                    while a0.get("k") == "addr":
+                        a0 = C.strip(a0["e"])
+                    ok_all = ok_all and a0.get("k") == "local" and merged(h, a0.get("id"), depth + 1)
+                return ok_all
+            return False
+        used, holders = [], []
+        for g in fset:
+            for n_ in C.walk(C.fn_body(g)):
+                if n_.get("k") == "mcall" and n_.get("m") == "apply":
+                    r_ = C.strip(n_["recv"])
+                    if r_.get("k") == "field" and r_.get("n") == "abi_rename":
+                        b_ = C.strip(r_["e"])
+                        used.append((g, b_.get("id") if b_.get("k") == "local" else None, b_.get("n")))
+                if n_.get("k") == "struct":
+                    for fl in n_["fields"]:
+                        if fl["n"] == "attrs":
+                            e_ = C.strip(fl["e"])
+                            if e_.get("k") == "local" and merged(g, e_.get("id")):
+                                holders.append(e_.get("id"))
+        ok_ = bool(holders) and bool(used) and all(u is not None and merged(g, u) for g, u, _ in used)
+        ck.expect(ok_, "R1", label + "/rename-of-own-attrs", "renamed with the attrs stored in the item", "%s renames the symbol with `%s.abi_rename`, which is not the item's own merged attribute set (the one "
+                  "add_attrs was called on and that is stored in the item; %d such holders): an #[diplomat::abi_rename] written on the item itself is ignored for its exported name" %
+                  (label, [n for _, _, n in used], len(holders)), C.loc(fn_))
     own_attrs_rule(core.fn("ast::methods::Method::from_syn"), "ast::methods::Method", "Method::from_syn")
     for ctor in ("ast::opaque::OpaqueType::new_struct", "ast::opaque::OpaqueType::new_enum"):
         own_attrs_rule(core.fn(ctor), "OpaqueType", ctor.split("::")[-1])
